@@ -1219,3 +1219,21 @@ Theorem check_pattern_ref_mask : forall re_ok re_match mask filter hostname r hs
   (check_pattern re_ok re_match mask (fs_of filter) hostname r = true <->
    ref_match (ast_of_fields sh filter hostname) (lower_str (r_url r)) (r_host r) hs).
 Proof. intros re_ok re_match mask. exact (check_pattern_ref re_ok re_match (shape_of_mask mask)). Qed.
+
+(* "www." is stripped before lower-casing: two spellings that differ only in case differ in meaning *)
+Lemma www_strip_case_refuted :
+  exists line url host hs,
+    nondegenerate_text line = true /\ host_right_pipe line = false /\ www_strip_case line = true /\
+    wf_request {| r_url := url; r_host := host |} hs /\
+    cp_line line url host = false /\ ref_match (ast_of_text line) url host hs /\
+    cp_line (lower_str line) url host = true.
+Proof.
+  exists (bs "||WWW.ads.net^"), (bs "https://ads.net/x"), (bs "ads.net"), 8.
+  repeat (split; [vm_compute; reflexivity|]).
+  split.
+  { split; [vm_compute; reflexivity|]. split; [vm_compute; reflexivity|]. split; [|vm_compute; reflexivity].
+    right. vm_compute. eexists. eexists. split; reflexivity. }
+  split; [vm_compute; reflexivity|]. split; [|vm_compute; reflexivity].
+  apply ref_matchb_spec; [|vm_compute; reflexivity].
+  intros h E. vm_compute in E. inversion E. discriminate.
+Qed.
